@@ -6,7 +6,7 @@
  *  VSHIM_ROOT=<dir>       only paths below this directory are traced / matched (default: all)
  *  VSHIM_RULES=r;r;...    r = call,pathsub,k,action[,arg]
  *        call   : pwrite write pread read rename remove unlink rmdir mkdir symlink link ftruncate fallocate
- *                 fsync open utimens any      ("any" = any state-changing call: everything except pread/read/open-for-read)
+ *                 fsync open utimens opendir (delay only: slows the scan of one disk) any      ("any" = any state-changing call: everything except pread/read/open-for-read)
  *        pathsub: substring of the path ("*" = any)
  *        k      : 1-based index among the matching calls; 0 = every matching call
  *        action : eio enospc  (the call fails with that errno, nothing is done)
@@ -25,6 +25,7 @@
  * Lines are written with one write(2) through the raw syscall to a private O_APPEND descriptor.
  */
 #define _GNU_SOURCE
+#include <dirent.h>
 #include <dlfcn.h>
 #include <errno.h>
 #include <fcntl.h>
@@ -515,6 +516,20 @@ int open64(const char* path, int flags, ...)
 		va_end(ap);
 	}
 	return do_open(path, flags, mode, 1);
+}
+
+/* directory scan: only the delay action makes sense (one scanner thread made slower than the others) */
+DIR* opendir(const char* path)
+{
+	REAL(opendir);
+	struct rule* r;
+	init();
+	if (path && in_root(path)) {
+		r = match("opendir", path, 0);
+		if (r && strcmp(r->action, "delay") == 0)
+			pre(r, "opendir", path, 0, 0);
+	}
+	return real_opendir(path);
 }
 
 time_t time(time_t* t)
